@@ -41,3 +41,7 @@ simple_frame_codec!(
     RetireConnectionId { sequence_number },
     retire_connection_id_tag!()
 );
+
+#[cfg(all(aws_s2n_quic_verif, test))]
+#[path = "/verif/harness/core/frame_retire_connection_id.rs"]
+mod verif;
